@@ -132,11 +132,12 @@ func verifModelStat(name string) (os.FileInfo, error) {
 	if !ok {
 		return nil, verifENOENT()
 	}
-	return &verifFileInfo{name: name, size: int64(size), mode: os.FileMode(mode)}, nil
+	return &verifFileInfo{name: name, size: int64(size), mode: os.FileMode(mode), mtime: verifMTimeRawName(name)}, nil
 }
 
 func verifFStatRaw(f *os.File) (int, int, bool)
 func verifFMTimeRaw(f *os.File) int
+func verifMTimeRawName(name string) int
 
 func verifModelFStat(f *os.File) (os.FileInfo, error) {
 	size, mode, ok := verifFStatRaw(f)
